@@ -1,7 +1,7 @@
 (* Evaluation of the C14 model on harness-written cases (correspondence check). *)
 From Coq Require Import List NArith ZArith String Bool.
 From V.Base Require Import Hex BigEndian.
-From V.C14 Require Import Model.
+From V.C14 Require Import Model Bytes Proofs.
 Import ListNotations.
 Local Open Scope Z_scope.
 
@@ -45,6 +45,11 @@ Definition some_pk : g2 := G2Aff (1, 1) (1, 1).
 
 Definition honest_sig (hb : bytes) : g1 := fst (sig_deserialize hb).
 
+Definition code_of (r : res g2) : N := match r with Ok _ => 0%N | Err e => err_code e end.
+Definition test_sig : g1 := G1Aff 1 2.
+
+(* the direct evaluation of the model (slow: every on-curve test is two or three 256-bit modular
+   multiplications by binary long division, and the code's repeated IsOnCurve calls are repeated) *)
 Definition check (c : case) : bool :=
   match c with
   | SigCase h cd (Obs err nl valid ser ok) =>
@@ -63,13 +68,10 @@ Definition check (c : case) : bool :=
   | PkCase h cd perr ser ok =>
       let hb := unhex h in
       let b := cand_bytes hb cd in
-      let hpk := byte_to_pk hb in
-      let s := G1Aff 1 2 in
-      (match pk_deserialize b with Ok _ => 0%N | Err e => err_code e end =? perr)%N &&
+      (code_of (pk_deserialize b) =? perr)%N &&
       bytes_eqb (g2_marshal (byte_to_pk b)) (unhex ser) &&
-      eqbool (verify_sig (pairing_for hpk s) (byte_to_pk b) s) ok &&
-      eqbool ok (bytes_eqb b hb) &&
-      negb (g2_eqb hpk G2Nil)
+      eqbool (verify_sig (pairing_for (byte_to_pk hb) test_sig) (byte_to_pk b) test_sig) ok &&
+      eqbool ok (bytes_eqb b hb)
   | ZeroPkCase h sb ok =>
       let hb := unhex h in
       eqbool (verify_sig (pairing_for some_pk (honest_sig hb)) (byte_to_pk (repeat 0%N 128))
@@ -86,3 +88,100 @@ Definition check (c : case) : bool :=
       | None => false
       end
   end.
+
+(* what the cases files evaluate: one parse per candidate; the repeated curve tests and the parse of
+   the honest encoding are replaced by their proved values (check_fast_sound below) *)
+Definition sig_verdict (b hb : bytes) (v : g1) : bool :=
+  match v with G1Aff _ _ => bytes_eqb b hb | _ => false end.
+Definition pk_verdict (b hb : bytes) (r : res g2) : bool :=
+  match r with Ok (G2Aff _ _) => bytes_eqb b hb | _ => false end.
+
+Definition check_fast (c : case) : bool :=
+  match c with
+  | SigCase h cd (Obs err nl valid ser ok) =>
+      let hb := unhex h in
+      let b := cand_bytes hb cd in
+      bytes_okb b &&
+      let '(v, e) := sig_deserialize b in
+      let nn := negb (g1_eqb v G1Nil) in
+      eqbool e err && eqbool (negb nn) nl && eqbool nn valid &&
+      bytes_eqb (sig_serialize v) (unhex ser) &&
+      eqbool (sig_verdict b hb v) ok && eqbool ok (bytes_eqb b hb)
+  | HexCase h cd ok =>
+      let hb := unhex h in
+      let b := cand_bytes hb cd in
+      bytes_okb b && eqbool (sig_verdict b hb (fst (sig_deserialize b))) ok
+  | PkCase h cd perr ser ok =>
+      let hb := unhex h in
+      let b := cand_bytes hb cd in
+      bytes_okb b &&
+      let r := pk_deserialize b in
+      (code_of r =? perr)%N &&
+      bytes_eqb (g2_marshal (match r with Ok v => v | Err _ => G2Nil end)) (unhex ser) &&
+      eqbool (pk_verdict b hb r) ok && eqbool ok (bytes_eqb b hb)
+  | _ => check c
+  end.
+
+Lemma eqbool_true a b : eqbool a b = true <-> a = b.
+Proof. unfold eqbool. split; [apply Bool.eqb_prop | intros ->; apply Bool.eqb_reflx]. Qed.
+
+Lemma bool_eq_iff (a b : bool) : (a = true <-> b = true) -> a = b.
+Proof. destruct a, b; intuition congruence. Qed.
+
+Lemma some_pk_eq : g2_eqb some_pk some_pk = true. Proof. reflexivity. Qed.
+Lemma test_sig_curve : on_curve 1 2 = true. Proof. vm_compute. reflexivity. Qed.
+
+Lemma verify_aff pe px py x y : on_curve x y = true ->
+  verify_sig pe (G2Aff px py) (G1Aff x y) = pe (G2Aff px py) (G1Aff x y).
+Proof. intro H. cbn [verify_sig sig_is_valid]. rewrite H. reflexivity. Qed.
+
+(* VerifySig's decision on a parsed candidate, for the key/message whose signature encodes as hb *)
+Lemma sig_verdict_ok b hb : bytes_ok b -> bytes_ok hb ->
+  verify_sig (pairing_for some_pk (honest_sig hb)) some_pk (fst (sig_deserialize b)) =
+  sig_verdict b hb (fst (sig_deserialize b)).
+Proof.
+  intros Hb Hh. destruct (sig_deserialize b) as [v e] eqn:Es. cbn [fst].
+  destruct (sig_valid_after_parse b v e Hb Es) as [Hv He].
+  destruct v as [| |x y]; [reflexivity | reflexivity |].
+  cbn [sig_is_valid g1_eqb negb] in Hv. cbn [g1_eqb] in He. subst e.
+  unfold some_pk. rewrite (verify_aff _ _ _ _ _ Hv). cbn [sig_verdict].
+  unfold pairing_for. change (g2_eqb (G2Aff (1, 1) (1, 1)) (G2Aff (1, 1) (1, 1))) with true. cbn [andb].
+  apply bool_eq_iff. rewrite g1_eqb_eq, bytes_eqb_eq. unfold honest_sig. split.
+  - intro H. destruct (sig_deserialize hb) as [v' e'] eqn:Eh. cbn [fst] in H. subst v'.
+    destruct e'; [apply sig_error_nil in Eh; discriminate|].
+    destruct (sig_exact b _ Hb Es) as [E1 _]. destruct (sig_exact hb _ Hh Eh) as [E2 _]. congruence.
+  - intros <-. rewrite Es. reflexivity.
+Qed.
+
+Lemma pk_verdict_ok b hb : bytes_ok b -> bytes_ok hb ->
+  verify_sig (pairing_for (byte_to_pk hb) test_sig) (byte_to_pk b) test_sig = pk_verdict b hb (pk_deserialize b).
+Proof.
+  intros Hb Hh. unfold byte_to_pk at 2. destruct (pk_deserialize b) as [pk|err] eqn:Ep; [|reflexivity].
+  destruct pk as [| |px py]; [reflexivity | unfold test_sig; cbn [verify_sig sig_is_valid]; rewrite test_sig_curve; reflexivity |].
+  unfold test_sig. rewrite (verify_aff _ _ _ _ _ test_sig_curve). cbn [pk_verdict].
+  unfold pairing_for. replace (g1_eqb (G1Aff 1 2) (G1Aff 1 2)) with true by reflexivity. rewrite andb_true_r.
+  apply bool_eq_iff. rewrite g2_eqb_eq, bytes_eqb_eq. unfold byte_to_pk. split.
+  - intro H. destruct (pk_deserialize hb) as [pk'|err'] eqn:Eh; [|discriminate]. subst pk'.
+    destruct (pk_exact b _ Hb Ep ltac:(discriminate)) as [E1 _].
+    destruct (pk_exact hb _ Hh Eh ltac:(discriminate)) as [E2 _]. congruence.
+  - intros <-. rewrite Ep. reflexivity.
+Qed.
+
+(* a passing fast check is a passing direct check *)
+Theorem check_fast_sound c : check_fast c = true -> check c = true.
+Proof.
+  destruct c as [h cd [err nl valid ser ok] | h cd ok | h cd perr ser ok | | | |]; try (intro H; exact H).
+  - cbn [check_fast check]. set (hb := unhex h). set (b := cand_bytes hb cd).
+    intro H. apply andb_true_iff in H as [Hok H]. apply bytes_okb_spec in Hok.
+    assert (Hh : bytes_ok hb) by apply unhex_ok.
+    pose proof (sig_verdict_ok b hb Hok Hh) as Hv.
+    destruct (sig_deserialize b) as [v e] eqn:Es. cbn [fst] in Hv.
+    destruct (sig_valid_after_parse b v e Hok Es) as [Hval _].
+    rewrite Hv, Hval. rewrite negb_involutive in H. exact H.
+  - cbn [check_fast check]. set (hb := unhex h). set (b := cand_bytes hb cd).
+    intro H. apply andb_true_iff in H as [Hok H]. apply bytes_okb_spec in Hok.
+    rewrite (sig_verdict_ok b hb Hok (unhex_ok h)). exact H.
+  - cbn [check_fast check]. set (hb := unhex h). set (b := cand_bytes hb cd).
+    intro H. apply andb_true_iff in H as [Hok H]. apply bytes_okb_spec in Hok.
+    rewrite (pk_verdict_ok b hb Hok (unhex_ok h)). exact H.
+Qed.
